@@ -382,10 +382,13 @@ def scen_dups(rng):
 VERSION_POOL = [None, 0, 1, 1.0, True, '1', [1], {'a': 1, 'b': 2}, {'b': 2, 'a': 1}, {'a': 1}, 2, False, 0.0, '', [], {},
                 # maps of the same size with different keys, one of them null-valued; nested; null in a list
                 {'opt': None, 'level': 1}, {'level': 1, 'mode': 'fast'}, {'level': 1, 'mode': None}, {'k': {'a': None}}, {'k': {'b': None}},
-                [None], [None, None], {'a': None}, {'b': None}]
+                [None], [None, None], {'a': None}, {'b': None},
+                # keys that are not strings (stringified by the sanitiser: the recorded version must be the sanitised one), tuples
+                {1: 'a'}, {'1': 'a'}, {'k': {2023: 'a', None: 1}}, (1, 2), {True: 0}, {'k': (1, [2, (3,)])}]
 
 
-VERSION_PAIRS = [({'opt': None, 'level': 1}, {'level': 1, 'mode': 'fast'}), ({'a': None}, {'b': None}), ({'a': None}, {}), ({'a': None}, None),
+VERSION_PAIRS = [({1: 'a'}, {'1': 'a'}), ({'k': {2: 'x'}}, {'k': {'2': 'x'}}), ({None: 1}, {'null': 1}), ({'k': (1, 2)}, {'k': [1, 2]}), ({2023: 'a'}, {2023: 'a'}),
+                 ({'opt': None, 'level': 1}, {'level': 1, 'mode': 'fast'}), ({'a': None}, {'b': None}), ({'a': None}, {}), ({'a': None}, None),
                  ({'k': {'a': None}}, {'k': {'b': None}}), ([None], []), ([None], [None, None]), (0, None), (0, False), ('', None), ([], None), ({}, None),
                  (0.0, 0), (1, 1.0), (1, True), ({'a': 1, 'b': 2}, {'b': 2, 'a': 1}), ([1, 2], (1, 2)), ({'a': [1, 2.0]}, {'a': [1.0, 2]}), ('1', 1),
                  (10 ** 18, 10 ** 18 + 1), (2 ** 53, 2 ** 53 + 1), (0.1 + 0.2, 0.3)]
@@ -903,7 +906,30 @@ def scen_funcname(rng):
     return {'tree': [], 'funcs': funcs, 'steps': steps}
 
 
-SCENARIOS = [scen_funcname, scen_nested_failure, scen_swap, scen_stale_dir, scen_dups, scen_versions, scen_reads, scen_identity, scen_foreign_swap, scen_sibling_failure, scen_todir, scen_selfread, scen_file_becomes_parent, scen_olddir_becomes_target, scen_prefix_siblings, scen_overlay_order, scen_nested_reuse, scen_double_failure]
+def scen_failed_target_becomes_dir(rng):
+    """a build_file whose function fails (caught), after which the same function uses the failed target's path as a
+    directory: it builds a file below it.  On an unchanged rebuild the path exists on disk - as a directory the previous
+    build made - but not in the virtual tree the record is validated against, so the record of the caught failure is
+    still good and nothing but ... nothing runs"""
+    g = rng.choice(NAMES)
+    x = '%s/%s' % (g, rng.choice(['x', 'ab']))
+    below = '%s/%s' % (x, rng.choice(['d', 'e/d']))
+    fail_body = rng.choice([[['raise', 4]], [], [['w', None], ['raise', 6]]])
+    wrap = rng.random() < 0.7
+    inner = [_bf(x, 2, catch=True), _bf(below, 3, catch=False)] + _probe(rng, [x, g, below], 1)
+    funcs = [_fn('f0', ([_sb(1, catch=True)] if wrap else inner) + _probe(rng, [g, ''], 1)),
+             _fn('f1', inner if wrap else []),
+             _fn('f2', fail_body),
+             _fn('f3', [['w', None]])]
+    funcs.append(_fn('rootfail', funcs[0]['stmts'] + [['raise', 99]]))
+    tree = [[g, 'dir']] if rng.random() < 0.4 else []
+    steps = [_build(), _build(), _build()]
+    if rng.random() < 0.3:
+        steps += [['clean', 'n'], _build()]
+    return {'tree': tree, 'funcs': funcs, 'steps': steps}
+
+
+SCENARIOS = [scen_failed_target_becomes_dir, scen_funcname, scen_nested_failure, scen_swap, scen_stale_dir, scen_dups, scen_versions, scen_reads, scen_identity, scen_foreign_swap, scen_sibling_failure, scen_todir, scen_selfread, scen_file_becomes_parent, scen_olddir_becomes_target, scen_prefix_siblings, scen_overlay_order, scen_nested_reuse, scen_double_failure]
 
 
 def gen_scenario_cases(seed, per_family, dirsize=4096, families=SCENARIOS):
